@@ -3,6 +3,8 @@ from collections import ChainMap
 
 import attrs
 
+from .utils import dump_json_atomic
+
 CONFIG_DEFAULTS = {"verbose": "info", "clean_logs": True, "use_spec_hashes": False}
 
 
@@ -78,8 +80,9 @@ class FileConfig:
 
     def dump(self):
         """Dump the configuration to disk."""
-        with open(str(self.path), "w+") as config_file:
-            json.dump(dict(self.data.maps[0]), config_file, indent=4, sort_keys=True)
+        dump_json_atomic(
+            dict(self.data.maps[0]), str(self.path), indent=4, sort_keys=True
+        )
 
     @classmethod
     def load(cls, path):
